@@ -4,8 +4,10 @@
 S="$(realpath "$1")"; TIER="$2"; shift 2
 WT=/tmp/seedwt-$$
 git -C /repo worktree add -q --detach "$WT" HEAD || exit 2
-if ! git -C "$WT" apply --3way "$S/patch.diff" 2>/tmp/seedapply.$$; then
-  if ! (cd "$WT" && patch -p1 -s --fuzz=3 < "$S/patch.diff"); then echo "PATCH-DOES-NOT-APPLY $S"; cat /tmp/seedapply.$$; git -C /repo worktree remove --force "$WT"; exit 3; fi
+if ! git -C "$WT" apply "$S/patch.diff" 2>/tmp/seedapply.$$; then
+  git -C "$WT" checkout -q -- . ; git -C "$WT" clean -fdq
+  if ! (cd "$WT" && patch -p1 -s --fuzz=3 < "$S/patch.diff" >/dev/null 2>&1) || grep -rlE '^(<<<<<<<|>>>>>>>) ' "$WT" --include=*.py --include=*.gram >/dev/null 2>&1 || [ -n "$(find "$WT" -name '*.rej' | head -1)" ]; then
+    echo "PATCH-DOES-NOT-APPLY $S"; cat /tmp/seedapply.$$; git -C /repo worktree remove --force "$WT"; rm -f /tmp/seedapply.$$; exit 3; fi
 fi
 if [ -f "$S/demo.py" ]; then /venv/bin/python "$S/demo.py" "$WT" >/dev/null 2>&1; echo "demo_exit_changed=$?"; /venv/bin/python "$S/demo.py" /repo >/dev/null 2>&1; echo "demo_exit_unchanged=$?"; fi
 for C in "$@"; do
